@@ -10,10 +10,9 @@ CONSTANTS
   DotAll = TRUE
   FindFirst = FALSE
   Emit = "none"
-  BlockLen = 2
+  BlockLen = 0
 SPECIFICATION Spec
 INVARIANT MatchesIffGlob
 INVARIANT BadEscapeRaises
 INVARIANT RefSanity
-INVARIANT BlockInvariance
 CHECK_DEADLOCK FALSE
